@@ -341,7 +341,6 @@ func (r *Run) Watch(caseID string) func() {
 	}
 }
 
-
 func maxPrint() int {
 	n := 25
 	if v := os.Getenv("VERIF_MAXPRINT"); v != "" {
